@@ -57,6 +57,7 @@ type live struct {
 	quietIdx  atomic.Int64
 	quiet     bool         // VERIF_NOHOOKS: no hook function and no-op callbacks, so that the harness adds no synchronisation between the server's goroutines (C18)
 	slackMs   atomic.Int64 // how late a time-out result may be (ms); 0 = 1300; scenarios that never park the writer set less
+	left      sync.Map     // connection index -> true once its leave callback has run
 	muted     sync.Map     // connection index -> *atomic.Int64: per-message events of a flooding connection are counted, not recorded
 	noFilter  bool         // the server runs WithHasSubcontract(false)
 	g         *service.GoJT808
@@ -95,6 +96,7 @@ func (e *liveEventer) OnJoinEvent(msg *service.Message, key string, err error) {
 	if err != nil {
 		es = err.Error()
 	}
+	_ = msg.JTMessage.Header.String() // (an application may read all of the message it is handed, here and now)
 	e.l.rec.log(e.idx, "R", "join", "key", key, "ok", err == nil, "err", es, "serial", int(msg.JTMessage.Header.SerialNumber))
 	if e.l.readHold != nil { // C09: messages handed to the join callback are retained as well
 		e.l.readHold(e.idx, msg)
@@ -108,6 +110,18 @@ func (e *liveEventer) OnLeaveEvent(key string) {
 		return
 	}
 	e.l.rec.log(e.idx, "R", "leave", "key", key)
+	e.l.left.Store(e.idx, true)
+}
+
+// waitLeft waits until the leave callback of connection c has run (its key is free from then on), at most d
+func (l *live) waitLeft(c int, d time.Duration) bool {
+	for dl := time.Now().Add(d); time.Now().Before(dl); time.Sleep(5 * time.Millisecond) {
+		if _, ok := l.left.Load(c); ok {
+			return true
+		}
+	}
+	_, ok := l.left.Load(c)
+	return ok
 }
 func (e *liveEventer) OnNotSupportedEvent(msg *service.Message) {
 	if e.l.quiet {
@@ -375,13 +389,21 @@ func (l *live) dial(phone []byte, ver int) *term { return l.dialWith(phone, ver,
 
 // dialWith(noRead): a terminal that never reads and advertises a tiny receive window (SO_RCVBUF set before connect),
 // so that the server's writes to it stall after a few kilobytes
+// noReadRcvBuf: the receive buffer of a terminal dialled with noRead (tiny: the server's writes stall soon; a terminal that is
+// to read again later takes a buffer of at least one segment, so that its window reopens the ordinary way)
+var noReadRcvBuf atomic.Int64
+
+func init() { noReadRcvBuf.Store(2048) }
+
 func (l *live) dialWith(phone []byte, ver int, noRead bool) *term {
 	dialMu.Lock()
 	defer dialMu.Unlock()
 	d := net.Dialer{}
 	if noRead {
 		d.Control = func(network, address string, rc syscall.RawConn) error {
-			return rc.Control(func(fd uintptr) { syscall.SetsockoptInt(int(fd), syscall.SOL_SOCKET, syscall.SO_RCVBUF, 2048) })
+			return rc.Control(func(fd uintptr) {
+				syscall.SetsockoptInt(int(fd), syscall.SOL_SOCKET, syscall.SO_RCVBUF, int(noReadRcvBuf.Load()))
+			})
 		}
 	}
 	c, err := d.Dial("tcp", l.addr)
@@ -426,12 +448,12 @@ func (t *term) readLoop() {
 				}
 				fr := append([]byte{}, acc[i:i+j+2]...)
 				acc = acc[i+j+2:]
-				t.nrecv.Add(1)
 				t.l.rec.log(t.idx, "D", "recv", "bytes", B(fr))
 				select {
 				case t.recvCh <- fr:
 				default:
 				}
+				t.nrecv.Add(1) // (counted once it can be taken from recvCh: waitRecv(n) then finds n frames there)
 			}
 		}
 		if err != nil {
